@@ -367,3 +367,103 @@ def theta_cursor(chk, rule, repo):
                       'per node, so every theta after an xN item is updated from the wrong parameter', line=f.node.lineno,
                       witness='$THETA (0,0.5)x3 (1,7,20) -2.25: update_source of the unmodified model rewrites the last two '
                               'thetas with the values of the replicates')
+
+
+def run_p13_p15(chk, repo):
+    """P13 writer scale conversion order, P14 old thetas classified with the old random variables, P15 comments of a
+    removed diagonal item go with it"""
+    from sa.cfg import CFG
+    from sa import lints, reach
+    om = repo.module('pharmpy.model.external.nonmem.records.omega_record')
+    cls = om.classes.get('OmegaRecord')
+    up = cls.methods.get('update') if cls else None
+    rm = cls.methods.get('remove') if cls else None
+    if up is None or rm is None:
+        raise AnalysisError('OmegaRecord.update / remove not found')
+    P13 = chk.rule('P13', 'OmegaRecord.update (BLOCK): covariances are divided by the standard deviations taken from the '
+                          'variances, i.e. before the diagonal is converted to SD (or from a copy of it)', floor=1)
+    cfg = CFG(up.node)
+
+    def is_sd_fill(n):
+        return n.kind == 'stmt' and n.ast is not None and any(
+            isinstance(c, ast.Call) and (dotted(c.func) or '').endswith('fill_diagonal') for c in ast.walk(n.ast)) \
+            and ('** 0.5' in unparse(n.ast) or 'sqrt' in unparse(n.ast))
+    fills = [n for n in cfg.nodes.values() if is_sd_fill(n)]
+    divs = [n for n in cfg.nodes.values() if n.kind == 'stmt' and isinstance(n.ast, ast.Assign)
+            and isinstance(n.ast.targets[0], ast.Subscript) and isinstance(n.ast.value, ast.BinOp)
+            and any(isinstance(b, ast.BinOp) and isinstance(b.op, ast.Div) for b in ast.walk(n.ast.value))
+            and 'sqrt' in unparse(n.ast.value)]
+    if not fills or not divs:
+        raise AnalysisError('P13: SD conversion / correlation division of OmegaRecord.update not found')
+    for d in divs:
+        # the diagonal it reads: A[i, i] directly, or a local bound to A.diagonal() (a view unless copied)
+        mat = unparse(d.ast.targets[0].value)
+        reads_view = False
+        for x in ast.walk(d.ast.value):
+            if isinstance(x, ast.Subscript) and unparse(x.value) == mat:
+                reads_view = True
+            if isinstance(x, ast.Name):
+                vs = reach.values(cfg, d.id, x.id) or []
+                for _dd, v in vs:
+                    if isinstance(v, ast.Call) and unparse(v.func) == f'{mat}.diagonal':
+                        reads_view = True
+        after = [f_ for f_ in fills if d.id in cfg.reachable(f_.id)]
+        ok = not (reads_view and after)
+        chk.instance(P13, f'`{d.text()[:70]}` reads the diagonal of {mat} (view: {reads_view}); SD conversion before it: {bool(after)}')
+        if not ok:
+            chk.violation(P13, om.rel, up.qualname, f'{after[0].text()[:50]} ... {d.text()[:60]}',
+                          'the diagonal already holds standard deviations when the covariances are divided by sqrt(diagonal): '
+                          'correlations are divided by sqrt(sd_i*sd_j) instead of sd_i*sd_j', line=d.line,
+                          witness='$OMEGA BLOCK(2) STANDARD CORRELATION: any update_source() writes other correlations than '
+                                  'the model has')
+    # ------------------------------------------------------------------ P14
+    P14 = chk.rule('P14', 'update_thetas: the old parameters are separated from variance parameters with the OLD random '
+                          'variables, the new ones with the new', floor=2)
+    um = repo.module('pharmpy.model.external.nonmem.update')
+    ut = um.functions.get('update_thetas')
+    if ut is None:
+        raise AnalysisError('update_thetas not found')
+    ucfg = CFG(ut.node)
+    comps = [c for c in ast.walk(ut.node) if isinstance(c, (ast.ListComp, ast.GeneratorExp)) and len(c.generators) == 1
+             and isinstance(c.generators[0].iter, ast.Name) and c.generators[0].iter.id in ut.params and c.generators[0].ifs]
+    if len(comps) < 2:
+        raise AnalysisError('P14: filters over the old / new parameters not found in update_thetas')
+    for c in comps:
+        which = c.generators[0].iter.id
+        nid = reach.node_containing(ucfg, c)
+        txt = ' '.join(unparse(reach.expand_expr(ucfg, nid, i)) if nid is not None else unparse(i) for i in c.generators[0].ifs)
+        uses_old = 'old_random_variables' in txt
+        want_old = which.startswith('old')
+        ok = uses_old == want_old and 'random_variables' in txt
+        chk.instance(P14, f'[.. for p in {which} if {txt[:70]}]: uses the {"old" if uses_old else "current"} random variables: {ok}')
+        if not ok:
+            chk.violation(P14, um.rel, ut.qualname, f'filter over `{which}`: {txt[:100]}',
+                          f'the {"old" if want_old else "new"} parameters must be classified with the '
+                          f'{"old" if want_old else "new"} random variables: a variance parameter whose eta was removed in this '
+                          f'update otherwise counts as a removed theta and shifts the record bookkeeping', line=c.lineno,
+                          witness='add_covariate_effect (adds a theta) then remove_iiv in one session: IndexError in '
+                                  'update_thetas, or the new $THETA record disappears')
+    # ------------------------------------------------------------------ P15
+    P15 = chk.rule('P15', 'OmegaRecord.remove (DIAGONAL): whether a comment / blank node is kept depends on the item it '
+                          'follows (state carried from the last diag_item)', floor=1)
+    loops = [L for L in ast.walk(rm.node) if isinstance(L, ast.For) and 'children' in unparse(L.iter)
+             and any(isinstance(c, ast.Constant) and c.value == 'diag_item' for c in ast.walk(L))]
+    if not loops:
+        raise AnalysisError('P15: loop over the children in the DIAGONAL branch of OmegaRecord.remove not found')
+    for L in loops:
+        var = L.target.id if isinstance(L.target, ast.Name) else None
+        if var is None:
+            continue
+
+        def is_keep(s_):
+            return isinstance(s_, ast.Expr) and isinstance(s_.value, ast.Call) and isinstance(s_.value.func, ast.Attribute) \
+                and s_.value.func.attr == 'append' and s_.value.args and unparse(s_.value.args[0]) == var
+        may, must = lints.exec_under(L.body, {f'{var}.rule': 'COMMENT'}, is_keep)
+        chk.instance(P15, f'OmegaRecord.remove: a COMMENT node is appended: may={may}, on every path={must}')
+        if must:
+            chk.violation(P15, om.rel, rm.qualname, f'for {var} in {unparse(L.iter)}: comment nodes always kept',
+                          'the `; NAME` comment of a removed eta stays in the record: the preceding unnamed variance adopts the '
+                          'name of the removed parameter when the record is read again', line=L.lineno,
+                          witness='$OMEGA 0.1 0.2 ; IIV_V   remove the second eta: OMEGA_1_1 re-reads as IIV_V')
+        if not may:
+            raise AnalysisError('P15: the keep list of OmegaRecord.remove is never appended to for a comment node')
